@@ -3,7 +3,8 @@
 Entry forms (JSON-serialisable; lists and tuples are both accepted):
   ('op', kind, q, rel)      kind: short code below; q: first qubit; rel: None | (rt, idx), rt in FB/JS/JE,
                             idx = position of an earlier entry of the same circuit (leaf or block)
-  ('sub', rep, body)        body: tuple of entries (relations local to the body); rep: int | ('reg', n)
+  ('sub', rep, body[, mode[, rel]])  body: tuple of entries (relations local to the body); rep: int | ('reg', n);
+                            rel: the block's own relation (FB/JS to an earlier entry) - such a block is inserted with add_operation
 Measurements take an optional tag: ('op', 'M', q, rel, tag)
 """
 from qce_circuit import (
@@ -137,10 +138,18 @@ def build(prog, rep=1, acq_from=None, root=None, observe=None, share_links=False
                 observe(circ)
         elif e[0] == 'sub':
             mode = e[3] if len(e) > 3 else None
+            brel = e[4] if len(e) > 4 else None
             sb = build(e[2], rep=e[1], acq_from=(root if mode == 'top' else acq_from), root=root, observe=observe,
                        share_links=share_links, via_structure=via_structure)
-            # via_structure: hand the block's structure (an ICircuitCompositeOperation) to add instead of the DeclarativeCircuit
-            ent.append(circ.add(sb.circ.circuit_structure if via_structure else sb.circ))
+            if brel is not None:
+                # a block with a relation of its own: DeclarativeCircuit.add copies a block and drops its relation, so the
+                # structure is given its relation and inserted with add_operation (it is then part of the circuit itself, not a copy)
+                structure = sb.circ.circuit_structure
+                structure.relation_link = RelationLink(ent[brel[1]], RT[brel[0]])
+                ent.append(circ.add_operation(structure))
+            else:
+                # via_structure: hand the block's structure (an ICircuitCompositeOperation) to add instead of the DeclarativeCircuit
+                ent.append(circ.add(sb.circ.circuit_structure if via_structure else sb.circ))
             subs.append(sb)
             if observe is not None:
                 observe(circ)
